@@ -3026,7 +3026,7 @@ typedef struct ccase {
 static ccase *CC;
 static int    NCC;
 
-static const char *CRESP[4] = {
+static const char *CRESP[5] = {
 	"HTTP/1.1 200 OK\r\nContent-Type: text/plain\r\nContent-Length: 5\r\n\r\nhello",
 	"HTTP/1.1 200 OK\r\nTransfer-Encoding: chunked\r\n\r\n5\r\nhello\r\n"
 	"3;x=y\r\nabc\r\n1A\r\n0\r\n\r\nABCDEFGHIJKLMNOPQRSTU\r\n0\r\nX-T: v\r\n\r\n",
@@ -3034,9 +3034,11 @@ static const char *CRESP[4] = {
 	"HTTP/1.1 204 No Content\r\nX-A: b\r\n\r\n",
 	"HTTP/1.1 200 OK\r\nContent-Length: 0\r\nX-A: b\r\n\r\n",
 };
-static const char  *CBODY[4] = { "hello", "helloabc0\r\n\r\nABCDEFGHIJKLMNOPQRSTU", "", "" };
-static const int    CSTAT[4] = { 200, 200, 204, 200 };
-static const char  *CRN[4]   = { "plain", "chunked", "204-no-content", "empty-body" };
+static const char  *CBODY[5] = { "hello", "helloabc0\r\n\r\nABCDEFGHIJKLMNOPQRSTU", "", "", "hello" };
+static const int    CSTAT[5] = { 200, 200, 204, 200, 200 };
+static const char  *CRN[5]   = { "plain", "chunked", "204-no-content", "empty-body", "large-head" };
+// [4]: a head of 120 ordinary header lines (12 KB: larger than the connection's read buffer) - built at start
+static char         CBIG[16384];
 
 static int
 raw_listen(int *port)
@@ -3242,6 +3244,21 @@ static void
 build_httpc_cases(int T)
 {
 	CC = calloc(6000, sizeof(ccase));
+	{
+		size_t o = (size_t) snprintf(CBIG, sizeof(CBIG), "HTTP/1.1 200 OK\r\n");
+		for (int i = 0; i < 120; i++) {
+			o += (size_t) snprintf(CBIG + o, sizeof(CBIG) - o, "X-Header-%03d: ", i);
+			for (int k = 0; k < 82; k++)
+				CBIG[o++] = (char) ('a' + (i + k) % 26);
+			CBIG[o++] = '\r';
+			CBIG[o++] = '\n';
+		}
+		snprintf(CBIG + o, sizeof(CBIG) - o, "Content-Length: 5\r\n\r\nhello");
+		CRESP[4] = CBIG;
+		static const int BC[] = { -1, 1, 50, 4000, 8159, 8160, 8161, 8200, 12000 };
+		for (unsigned i = 0; i < sizeof(BC) / sizeof(BC[0]); i++)
+			CC[NCC++] = (ccase){ 4, BC[i], BC[i] > 0 && BC[i] < 8000 ? BC[i] + 4100 : -1, NULL, CRN[4], "" };
+	}
 	for (int r = 0; r < 4; r++) {
 		int n = (int) strlen(CRESP[r]);
 		CC[NCC++] = (ccase){ r, -1, -1, NULL, CRN[r], "" };
